@@ -290,8 +290,10 @@ func (app *App) addPrefixToRoute(prefix string, route *Route) *Route {
 	// The prefix may contain parameters of its own: recompute the parameter keys from the
 	// prefixed path exactly as register does, otherwise Route.match never consults the parser.
 	route.Params = parseRoute(prefixedPath, app.customConstraints...).params
-	route.root = false
-	route.star = false
+	// Same shortcuts as register: only a sub-app route mounted at "/" can still be the root or
+	// the catch-all route, every other prefixed path is neither.
+	route.root = route.path == "/"
+	route.star = route.path == "/*"
 
 	return route
 }
